@@ -110,3 +110,66 @@ package multiboot
 //@   reads mem(addrof(i), addrof(i) + 24)
 //@   ensures other: mem8(addrof(i)+21) != 1 ==> isnil(ci)
 //@   ensures rgb: mem8(addrof(i)+21) == 1 ==> addrof(ci) == addrof(i) + 24 && ci.RedPosition == mem8(addrof(i)+24) && ci.RedMaskSize == mem8(addrof(i)+25) && ci.GreenPosition == mem8(addrof(i)+26) && ci.GreenMaskSize == mem8(addrof(i)+27) && ci.BluePosition == mem8(addrof(i)+28) && ci.BlueMaskSize == mem8(addrof(i)+29)
+
+// ---- ELF sections tag (type 9): u32 num, u32 entsize, u32 shndx, then the section headers -------
+// (64-byte ELF64 headers: u32 name, u32 type, u64 flags, u64 addr, u64 offset, u64 size, ...)
+//@ ufun elfIdx(b uintptr) uintptr
+//@ spec elfTag(b uintptr) uintptr = tagAddr(b, elfIdx(b))
+//@ spec elfNum(b uintptr) uintptr = uintptr(mem16(elfTag(b)+8))
+//@ spec elfSec(b uintptr, k uintptr) uintptr = elfTag(b) + 20 + k*64
+//@ spec elfStrtab(b uintptr) uintptr = uintptr(mem64(elfSec(b, uintptr(mem32(elfTag(b)+16))) + 16))
+// the tag holds all its section headers and the string-table index names one of them
+//@ pred wfElf(b uintptr) = firstTag(b, elfIdx(b), 9) && uintptr(mem32(elfTag(b)+4)) >= 20 + elfNum(b)*64 && uintptr(mem32(elfTag(b)+16)) < elfNum(b)
+
+// ghost log of section-visitor invocations; elfLogSec is written by VisitElfSections' own contract
+// (the header the call was made for), the rest by the assumed abstract visitor
+//@ ghost elfVisits uintptr
+//@ ghost elfLogSec map[uintptr]uintptr
+//@ ghost elfLogName map[uintptr]uintptr
+//@ ghost elfLogNameLen map[uintptr]int
+//@ ghost elfLogFlags map[uintptr]ElfSectionFlag
+//@ ghost elfLogAddr map[uintptr]uintptr
+//@ ghost elfLogSize map[uintptr]uint64
+//@ func VisitElfSections@visitor(name string, flags ElfSectionFlag, address uintptr, size uint64)
+//@   trusted
+//@   modifies elfVisits, elfLogName, elfLogNameLen, elfLogFlags, elfLogAddr, elfLogSize
+//@   ensures elfVisits == old(elfVisits) + 1
+//@   ensures elfLogName == upd(old(elfLogName), old(elfVisits), addrof(name)) && elfLogNameLen == upd(old(elfLogNameLen), old(elfVisits), len(name))
+//@   ensures elfLogFlags == upd(old(elfLogFlags), old(elfVisits), flags) && elfLogAddr == upd(old(elfLogAddr), old(elfVisits), address) && elfLogSize == upd(old(elfLogSize), old(elfVisits), size)
+
+// the string table: the section the tag's shndx names; its bytes live at its load address.
+// Every section's name starts inside the table and has its terminating NUL inside the table
+// (nulAt: where) - the property's premise for well-formed section names.
+//@ spec elfStrSize(b uintptr) uintptr = uintptr(mem64(elfSec(b, uintptr(mem32(elfTag(b)+16))) + 32))
+//@ ufun nulAt(b uintptr, k uintptr) uintptr
+//@ spec nameIdx(b uintptr, k uintptr) uintptr = uintptr(mem32(elfSec(b, k)))
+//@ pred wfName(b uintptr, k uintptr) = nulAt(b, k) >= nameIdx(b, k) && nulAt(b, k) < elfStrSize(b) && mem8(elfStrtab(b) + nulAt(b, k)) == 0 && forall(i, uintptr, nameIdx(b, k) <= i && i < nulAt(b, k) ==> mem8(elfStrtab(b) + i) != 0)
+//@ pred wfNames(b uintptr) = elfStrtab(b) < 0x800000000000 && elfStrSize(b) < 0x80000000 && forall(k, uintptr, k < elfNum(b) && mem64(elfSec(b, k) + 32) != 0 ==> wfName(b, k))
+
+// VisitElfSections: nothing is read outside the information block and the string table; the
+// visitor is called once for every section header with a non-zero size, in header order, with
+// the name that starts at the header's name index in the string table and ends at the first NUL,
+// the low 32 bits of the header's flags, its address and its size
+//@ func VisitElfSections(visitor ElfSectionVisitor)
+//@   property C10
+//@   requires wfMB(infoData) && elfVisits < 0x10000000
+//@   requires noTag(infoData, 9) || (wfElf(infoData) && wfNames(infoData))
+//@   reads mem(infoData, infoData + total(infoData)); mem(elfStrtab(infoData), elfStrtab(infoData) + elfStrSize(infoData))
+//@   modifies elfVisits, elfLogSec, elfLogName, elfLogNameLen, elfLogFlags, elfLogAddr, elfLogSize
+//@   at call visitor 1: ghost elfLogSec = upd(elfLogSec, elfVisits, secPtr)
+//@   ensures absent: old(noTag(infoData, 9)) ==> elfVisits == old(elfVisits)
+//@   ensures atmost: elfVisits - old(elfVisits) <= elfNum(infoData)
+//@   ensures calls: !old(noTag(infoData, 9)) ==> forall(w, uintptr, old(elfVisits) <= w && w < elfVisits ==> elfLogSec[w] >= elfSec(infoData, 0) && elfLogSec[w] < elfSec(infoData, elfNum(infoData)) && (elfLogSec[w] - elfSec(infoData, 0)) & 63 == 0 && mem64(elfLogSec[w] + 32) != 0 && elfLogName[w] == elfStrtab(infoData) + uintptr(mem32(elfLogSec[w])) && elfLogFlags[w] == ElfSectionFlag(mem64(elfLogSec[w] + 8)) && elfLogAddr[w] == uintptr(mem64(elfLogSec[w] + 16)) && elfLogSize[w] == mem64(elfLogSec[w] + 32))
+//@   ensures names: !old(noTag(infoData, 9)) ==> forall(w, uintptr, old(elfVisits) <= w && w < elfVisits ==> elfLogNameLen[w] >= 0 && mem8(elfLogName[w] + uintptr(elfLogNameLen[w])) == 0 && forall(i, uintptr, i < uintptr(elfLogNameLen[w]) ==> mem8(elfLogName[w] + i) != 0))
+//@   ensures order: forall(w, uintptr, x, uintptr, old(elfVisits) <= w && w < x && x < elfVisits ==> elfLogSec[w] < elfLogSec[x])
+//@   loop 1 (secIndex < ptrElfSections.numSections) ghost i = 0
+//@   loop 1 use old(wfTag(infoData, elfIdx(infoData))); elfTag(infoData) - infoData <= total(infoData) - 20; (elfTag(infoData) + 8) - infoData <= total(infoData) - 2; infoData <= elfTag(infoData)
+//@   at after call findTagByType 1: use !noTag(infoData, 9) ==> wfTag(infoData, elfIdx(infoData)); !noTag(infoData, 9) ==> elfTag(infoData) - infoData <= total(infoData) - 20 && infoData <= elfTag(infoData)
+//@   loop 1 inbody use i < elfNum(infoData); elfNum(infoData) < 65536; elfTag(infoData) - infoData <= total(infoData) - 8; uintptr(mem32(elfTag(infoData)+4)) <= total(infoData) - (elfTag(infoData) - infoData); elfNum(infoData)*64 + 20 <= uintptr(mem32(elfTag(infoData)+4)); i*64 + 64 <= elfNum(infoData)*64; uintptr(mem32(elfTag(infoData)+16))*64 + 64 <= elfNum(infoData)*64; (elfTag(infoData) - infoData) + uintptr(mem32(elfTag(infoData)+4)) <= total(infoData); (elfTag(infoData) - infoData) + 20 + elfNum(infoData)*64 <= total(infoData); (elfTag(infoData) - infoData) + 20 + i*64 + 64 <= total(infoData); elfSec(infoData, i) - infoData == (elfTag(infoData) - infoData) + 20 + i*64; elfSec(infoData, i) - infoData <= total(infoData) - 64; (elfTag(infoData) - infoData) + 20 + uintptr(mem32(elfTag(infoData)+16))*64 + 64 <= total(infoData); elfSec(infoData, uintptr(mem32(elfTag(infoData)+16))) - infoData <= total(infoData) - 64
+//@   loop 1 step i = i + 1
+//@   loop 1 invariant pos: !old(noTag(infoData, 9)) && addrof(ptrElfSections) == elfTag(infoData) + 8 && i <= elfNum(infoData) && uintptr(secIndex) == i && secPtr == elfSec(infoData, i) && addrof(strTableSection) == elfSec(infoData, uintptr(mem32(elfTag(infoData)+16))) && sizeofSection == 64 && elfVisits >= old(elfVisits) && elfVisits - old(elfVisits) <= i
+//@   loop 1 invariant calls: forall(w, uintptr, old(elfVisits) <= w && w < elfVisits ==> elfLogSec[w] >= elfSec(infoData, 0) && elfLogSec[w] < elfSec(infoData, i) && (elfLogSec[w] - elfSec(infoData, 0)) & 63 == 0 && mem64(elfLogSec[w] + 32) != 0 && elfLogName[w] == elfStrtab(infoData) + uintptr(mem32(elfLogSec[w])) && elfLogFlags[w] == ElfSectionFlag(mem64(elfLogSec[w] + 8)) && elfLogAddr[w] == uintptr(mem64(elfLogSec[w] + 16)) && elfLogSize[w] == mem64(elfLogSec[w] + 32))
+//@   loop 1 invariant names: forall(w, uintptr, old(elfVisits) <= w && w < elfVisits ==> elfLogNameLen[w] >= 0 && mem8(elfLogName[w] + uintptr(elfLogNameLen[w])) == 0 && forall(i2, uintptr, i2 < uintptr(elfLogNameLen[w]) ==> mem8(elfLogName[w] + i2) != 0))
+//@   loop 1 invariant order: forall(w, uintptr, x, uintptr, old(elfVisits) <= w && w < x && x < elfVisits ==> elfLogSec[w] < elfLogSec[x])
+//@   loop 2 (*(*byte)(unsafe.Pointer(uintptr(strTableSection.address) + end)) != 0) use wfName(infoData, i); nulAt(infoData, i) < elfStrSize(infoData)
+//@   loop 2 invariant scan: end >= nameIdx(infoData, i) && end <= nulAt(infoData, i) && forall(i2, uintptr, nameIdx(infoData, i) <= i2 && i2 < end ==> mem8(elfStrtab(infoData) + i2) != 0)
